@@ -165,6 +165,7 @@ impl InterfaceInner {
 }
 
 #[cfg(kani)]
+#[cfg(feature = "proto-ipv4")]
 impl InterfaceInner {
     pub(crate) fn kani_push_v4(&mut self, addr: crate::wire::Ipv4Address, prefix: u8) {
         self.ip_addrs.push(IpCidr::Ipv4(crate::wire::Ipv4Cidr::new(addr, prefix))).unwrap();
